@@ -182,7 +182,9 @@ def h_vcf(ctx, ploidy, hapx, female, naming, genome, with_cn, symrow=None):
     ctx.claim(k == len(recs), "vcf: no record for segments at the expected copy number")
 
 
-def h_seg(ctx, nsamples, chrom_ids, dup=False):
+def h_seg(ctx, nsamples, chrom_ids, dup=False, no_probes=()):
+    """no_probes: indices of samples whose table has no probes column (e.g. imported segments): the
+    other samples still get their probe counts."""
     tables, ids, fnames = {}, [], []
     allcols = []
     for k in range(nsamples):
@@ -196,6 +198,8 @@ def h_seg(ctx, nsamples, chrom_ids, dup=False):
             cols["start"].append(s)
             cols["end"].append(e)
             cols["probes"].append(ctx.int(f"p{k}_{i}", 1, 5000))
+        if k in no_probes:
+            del cols["probes"]
         sid = "S0" if dup and k > 0 else f"S{k}"
         fname = f"sample{k}.cns"
         tables[fname] = make_cna(cols, {"sample_id": sid})
@@ -211,7 +215,12 @@ def h_seg(ctx, nsamples, chrom_ids, dup=False):
         return
     finally:
         export.read_cna = orig
-    rows = list(out.itertuples(index=False))
+    names = list(out.columns)
+    ctx.claim(names[:4] == ["ID", "chrom", "loc.start", "loc.end"] and "seg.mean" in names and (len(no_probes) == nsamples or "num.mark" in names), "seg: the SEG columns are present")
+    if not (names[:4] == ["ID", "chrom", "loc.start", "loc.end"] and "seg.mean" in names and (len(no_probes) == nsamples or "num.mark" in names)):
+        return
+    order = ["ID", "chrom", "loc.start", "loc.end", "num.mark", "seg.mean"]
+    rows = [tuple((rec[c] if c in names else None) for c in order) for rec in out.to_dict("records")]
     ctx.observe("n", len(rows))
     ctx.claim(len(rows) == 2 * nsamples, "seg: one row per segment per sample")
     if len(rows) != 2 * nsamples:
@@ -223,7 +232,8 @@ def h_seg(ctx, nsamples, chrom_ids, dup=False):
             c = allcols[k]
             ctx.claim(r[0] == ids[k], "seg: rows are listed under their sample ID")
             ctx.claim(And(r[2] == c["start"][i] + 1, r[3] == c["end"][i]), "seg: 1-based start, end")
-            ctx.claim(r[4] == c["probes"][i], "seg: probe count")
+            if "probes" in c:
+                ctx.claim(r[4] == c["probes"][i], "seg: probe count")
             ctx.claim(approx(r[5], c["log2"][i]), "seg: mean")
             ch = c["chromosome"][i]
             if chrom_ids and ch in first_chroms:
@@ -365,7 +375,7 @@ HARNESSES = [
     Harness(
         "seg",
         h_seg,
-        [{"nsamples": 1, "chrom_ids": False}, {"nsamples": 2, "chrom_ids": False}, {"nsamples": 2, "chrom_ids": True}, {"nsamples": 2, "chrom_ids": False, "dup": True}, {"nsamples": 3, "chrom_ids": True, "tier": "thorough"}],
+        [{"nsamples": 1, "chrom_ids": False}, {"nsamples": 2, "chrom_ids": False}, {"nsamples": 2, "chrom_ids": True}, {"nsamples": 2, "chrom_ids": False, "dup": True}, {"nsamples": 2, "chrom_ids": False, "no_probes": [1]}, {"nsamples": 2, "chrom_ids": True, "no_probes": [0]}, {"nsamples": 1, "chrom_ids": False, "no_probes": [0]}, {"nsamples": 3, "chrom_ids": True, "tier": "thorough"}],
         covers=["start 0"],
         wall_s=240,
     ),
